@@ -152,6 +152,14 @@ def run_case(case):
         d5 = float(np.max(np.abs(moved[lo:hi] - ref[lo - m:hi - m])))
         v.check(bool(np.all(np.isfinite(moved))), "field is finite everywhere, one value per sample", shape=list(moved.shape), nonfinite=int(np.sum(~np.isfinite(moved))), shower_time=where)
         v.close("moves by whole samples when the shower time moves by whole samples", d5 / sc, 1e-6 + jit / sc + cond * slope * 4, m=m, model=case["model"], shower_time=where)
+    # (4b) a pulse that is well contained in the window (edges below 1e-3 of the peak) and is moved by 1.5 ... 4 windows leaves
+    # at most its far tail behind: nothing may re-enter from the periodic images of the models' FFT grids
+    edge = max(float(np.max(np.abs(ref[:max(N // 10, 1)]))), float(np.max(np.abs(ref[-max(N // 10, 1):]))))
+    if edge < 1e-3 * pk and rng.random() < 0.5:
+        far = float(rng.choice([-1, 1])) * float(rng.uniform(1.5, 4.0)) * N
+        gone = run(t_0=t0 + int(far) * dt)
+        v.check(bool(np.all(np.isfinite(gone))), "field is finite everywhere, one value per sample", shape=list(gone.shape), nonfinite=int(np.sum(~np.isfinite(gone))), shower_time="far outside the grid")
+        v.close("a contained pulse moved by more than a window leaves at most its far tail in the window", float(np.max(np.abs(gone))) / pk, 5e-3, moved_by_windows=far / N, model=case["model"])
     # (7) on the cone, EM showers: proportional to the energy
     if case["shower"] == "em":
         f_ = 3.7
